@@ -15,6 +15,7 @@ mod w2;
 mod frontend;
 mod report;
 mod rng;
+mod sierra_mut;
 
 use std::fs;
 use std::path::{Path, PathBuf};
